@@ -541,6 +541,8 @@ void stmt(struct func *, struct scope *);
 struct gotolabel {
 	struct block *label;
 	bool defined;
+	struct location loc;  /* first use */
+	struct gotolabel *next;
 };
 
 struct switchcases {
